@@ -506,7 +506,9 @@ def interpret(e: dict, pkg, schema, snake: bool, root_kind: Optional[str] = None
     obj = _interpret(e, pkg, schema, snake, root_kind, shared)
     if shared is not None and e.get("sid") is not None:
         shared[e["sid"]] = obj
-    if pool is not None and e.get("nid") is not None and e.get("reuse_nid") is None:
+    if pool is not None and e.get("nid") is not None and e.get("reuse_nid") is None and e["nid"] not in pool:
+        # (the object built FIRST for this node is "the kept object"; re-sending an operation rebuilds its tree from the same
+        # data - those are other objects and replace nothing)
         pool[e["nid"]] = obj
     return obj
 
